@@ -29,6 +29,13 @@ def _jobs(tier, seed):
                 if r.random() < 0.6:
                     kinds[name] = r.choice(["k0", "kF", "kS", "kL"])
             tconst = {t: r.choice(["k0", "kF", "kS", "kL"]) for t in "abc" if t not in tact and r.random() < 0.4}
+        if i % 3 == 0:
+            # STATEFUL actions (a shared counter): the routes must call the actions of a tree in the same order -- the order of the LR
+            # reductions (finding D48: call_actions went through the children right to left)
+            for name, _ in rules:
+                if r.random() < 0.5:
+                    kinds[name] = "kN"
+            tconst = {t: "kN" for t in "abc" if t not in tact and r.random() < 0.4}
         if i % 3 == 1:
             # built-in actions named in the grammar (@pass_inner ...) on rules without named matches (pass_single: no empty alternative)
             for name, alts in rules[1:]:
@@ -123,13 +130,24 @@ def worker(job):
         elif k == "list":
             actions[name] = [mk(name, i) for i in range(nalts[name])]
     CONST = {"k0": 0, "kF": False, "kS": "", "kL": []}
+    counter = {"n": 0}
+
+    def count_nt(ctx, nodes, **kw):
+        counter["n"] += 1
+        return counter["n"]
+
+    def count_t(ctx, v):
+        counter["n"] += 1
+        return counter["n"]
     for name, k in kinds.items():
         if k in CONST:
             actions[name] = (lambda c: (lambda ctx, nodes, **kw: type(c)(c)))(CONST[k])
+        elif k == "kN":
+            actions[name] = count_nt
     for t in job["tact"]:
         actions[t] = (lambda tt: (lambda ctx, v: ("tc", tt, v)))(t)
     for t, k in job.get("tconst", {}).items():
-        actions[t] = (lambda c: (lambda ctx, v: type(c)(c)))(CONST[k])
+        actions[t] = count_t if k == "kN" else (lambda c: (lambda ctx, v: type(c)(c)))(CONST[k])
     try:
         with real.guard(10), real.quiet():
             g = real.Grammar.from_string(text)
@@ -186,6 +204,7 @@ def worker(job):
         case = {"name": "%s actions=%s @ %r" % (text.replace("\n", " "), {k: kinds[k] for k in sorted(kinds)}, w), "gtext": text, "origin": job["origin"],
                 "kinds": kinds, "tactions": tact, "input": w, "prods": prods, "akind": akind, "assign": assign, "tact": tact, "tree": dump_tree(tree)}
         for key, fn in (("r1", lambda: p1.parse(w)), ("r2", lambda: p2.call_actions(tree))):
+            counter["n"] = 0
             try:
                 with real.guard(10), real.quiet():
                     case[key] = {"ok": True, "v": tagval(fn()), "single": True}
@@ -206,6 +225,7 @@ def worker(job):
                     single = False
                 if single:
                     case["gtree"] = dump_tree(f.get_nonlazy_tree(0))
+                counter["n"] = 0
                 case["r3"] = {"ok": single, "single": single, "v": tagval(p3.call_actions(f[0])) if single else ["n"]}
         except Exception as e:  # noqa: BLE001
             case["r3"] = {"ok": False, "single": True, "v": ["n"], "err": type(e).__name__}
